@@ -140,6 +140,33 @@ def run_history(case):
                 ch[name] = value
                 model[path] = (model[path][0], model[path][1], model[path][2], ch)
                 del conn.sent[:]
+            elif kind == 'export_broken':
+                # an export that FAILS (a readable property was never given a value, so the announcement cannot be
+                # built) at a path that is in use: whatever the failed call leaves behind, the path was exported before,
+                # nobody unexported it, no InterfacesRemoved went out - it is still there
+                if path not in model:
+                    continue
+                broken = classes[0](path)          # Ro / Rw / Wo never assigned
+                try:
+                    h.exportObject(broken)
+                    failed = False
+                except Exception:
+                    failed = True
+                del conn.sent[:]
+                if failed:
+                    serial += 1
+                    rep = _call(MSG, h, conn, path, 'org.verif.T1', 'Poke', serial)
+                    d = _one(rep, out, 'call', path)
+                    if d is not None and d['type'] == 3 and d['fields'].get(4) == 'org.freedesktop.DBus.Error.UnknownObject':
+                        out.append(Disc('export.failed-export-removed-the-path', 'path %s was exported, a second export there '
+                                                                                'failed, now the path is unknown' % path))
+                        break
+                # put things into a defined state again: a proper object takes the path
+                obj = _new_obj(classes, path, 0, si)
+                live[path] = (obj, 0, si)
+                h.exportObject(obj)
+                model[path] = (0, si, path, {})
+                del conn.sent[:]
             elif kind == 'export':
                 variant = op[2] % 3
                 stamp = si
@@ -301,6 +328,9 @@ def classify(case):
             exported.add(p)
         elif op[0] == 'unexport':
             exported.discard(p)
+        elif op[0] == 'export_broken':
+            if p in exported:
+                labels.append('failed_export_on_occupied_path')
         elif p in exported:
             labels.append('property_changed_after_export')
         for a in exported:
@@ -358,6 +388,12 @@ def enum_histories(tier):
                     yield {'pool': SMALL, 'ops': [[k, i, (i + idx) % 3, 1] for idx, (k, i) in enumerate(seq)]}
 
 
+def enum_broken(tier):
+    for variant in (0, 1, 2):
+        yield {'pool': SMALL, 'ops': [['export', 1, 0], ['export', 2, variant], ['export_broken', 2, 0], ['unexport', 2, 0],
+                                      ['export', 2, variant], ['export_broken', 1, 0]]}
+
+
 def enum_setprop(tier):
     """Parent and child exported, a property of the child (announcing or silent) changed afterwards, parent queried."""
     for variant in (0, 1, 2):
@@ -371,7 +407,8 @@ def enum_setprop(tier):
 def random_history(draw, tier):
     ops = []
     for _ in range(draw(st.integers(1, 30))):
-        ops.append([draw(st.sampled_from(['export', 'export', 'export', 'unexport', 'unexport', 'setprop'])), draw(st.integers(0, len(POOL) - 1)),
+        ops.append([draw(st.sampled_from(['export', 'export', 'export', 'export', 'unexport', 'unexport', 'setprop', 'export_broken'])),
+                    draw(st.integers(0, len(POOL) - 1)),
                     draw(st.integers(0, 2)), draw(st.integers(0, 1))])
     return {'pool': POOL, 'ops': ops}
 
@@ -380,6 +417,8 @@ SUBCHECKS = [
     Subcheck('enum', run_history, classify, enumerate=enum_histories, shards={'quick': 8, 'thorough': 16},
              exhaustive_note='all admissible export/unexport histories of length <=4 (quick) / <=5 (thorough) over the '
                              '6-path pool, each queried at every path after every step'),
+    Subcheck('broken_export', run_history, classify, enumerate=enum_broken, shards={'quick': 1, 'thorough': 1},
+             exhaustive_note='an export that fails on an occupied path (3 object classes, parent and child positions)'),
     Subcheck('setprop', run_history, classify, enumerate=enum_setprop, shards={'quick': 2, 'thorough': 2},
              exhaustive_note='3 object classes x {announcing, silent} property changed after export x 3 continuations'),
     Subcheck('random', run_history, classify, strategy=lambda tier: random_history(tier),
